@@ -81,6 +81,8 @@ type orcObj struct {
 	// Inherited (nested boards): some reference is declared outside the addressed board's
 	// own AST (the board inherits the element from its base board).
 	Inherited bool
+	// DupAttr: one of the object's maps declares the same attribute key twice.
+	DupAttr bool
 }
 
 type orcEdge struct {
@@ -186,6 +188,26 @@ func orcSnapOf(g *d2graph.Graph) *orcSnap {
 			if g.BaseAST != nil && ref.ScopeAST != nil && ref.ScopeAST != g.BaseAST && g.Parent != nil {
 				oo.Inherited = true
 			}
+			if m := ref.MapKey.Value.Map; m != nil && len(ref.MapKey.Edges) == 0 && ref.Key != nil && ref.KeyPathIndex == len(ref.Key.Path)-1 {
+				seen := map[string]bool{}
+				for _, n := range m.Nodes {
+					if n.MapKey == nil || n.MapKey.Key == nil || len(n.MapKey.Edges) > 0 {
+						continue
+					}
+					var parts []string
+					for _, sb := range n.MapKey.Key.Path {
+						parts = append(parts, sb.Unbox().ScalarString())
+					}
+					if _, res := d2ast.ReservedKeywords[parts[0]]; !res {
+						continue
+					}
+					ks := strings.Join(parts, ".")
+					if seen[ks] {
+						oo.DupAttr = true
+					}
+					seen[ks] = true
+				}
+			}
 			if ref.MapKey.Key != nil && len(ref.MapKey.Key.Path) > 0 && len(ref.MapKey.Edges) == 0 &&
 				ref.MapKey.Key.Path[len(ref.MapKey.Key.Path)-1].Unbox().ScalarString() == "near" &&
 				(ref.MapKey.Value.Map != nil || ref.MapKey.Primary.Unbox() != nil) {
@@ -236,6 +258,19 @@ func orcSnapOf(g *d2graph.Graph) *orcSnap {
 		for _, ref := range e.References {
 			if ref.MapKey != nil && len(ref.MapKey.Edges) > 1 {
 				ee.InChain = true
+			}
+			if ref.MapKey != nil {
+				// label set by an explicit `label` key (index reference or entry of the map)
+				if ek := ref.MapKey.EdgeKey; ek != nil && len(ek.Path) > 0 && ek.Path[len(ek.Path)-1].Unbox().ScalarString() == "label" {
+					ee.LabelKW = true
+				}
+				if m := ref.MapKey.Value.Map; m != nil {
+					for _, n := range m.Nodes {
+						if n.MapKey != nil && n.MapKey.Key != nil && len(n.MapKey.Key.Path) == 1 && n.MapKey.Key.Path[0].Unbox().ScalarString() == "label" {
+							ee.LabelKW = true
+						}
+					}
+				}
 			}
 			if ref.Edge != nil && ref.Edge.Range.Path != "index.d2" {
 				ee.Foreign = true
